@@ -74,6 +74,200 @@ pub open spec fn commutative(op: u8) -> bool { BDDOp::And as u8 <= op <= BDDOp::
 /// the handle `e` is a legal diagram of manager with `n` levels
 pub open spec fn ok(t: Tree, n: int) -> bool { wf(t) && below(t, n) }
 
+// ---------- quantification (C04) ----------
+pub open spec fn upd(env: Env, l: int, v: bool) -> Env { |i: int| if i == l { v } else { env(i) } }
+pub open spec fn is_q(q: u8) -> bool { q == BDDOp::And as u8 || q == BDDOp::Or as u8 || q == BDDOp::Xor as u8 }
+/// `Q x_l1. Q x_l2. ... t` for the levels along the then-chain of `vs` (a positive cube = a variable set)
+pub open spec fn qsem(q: u8, t: Tree, vs: Tree, env: Env) -> bool decreases vs {
+    match vs {
+        Tree::Leaf(_) => sem(t, env),
+        Tree::Inner(l, a, _) => op_sem(q, qsem(q, t, *a, upd(env, l as int, true)), qsem(q, t, *a, upd(env, l as int, false))),
+    }
+}
+/// `Q vars. (f OP g)`
+pub open spec fn qsem2(q: u8, op: u8, f: Tree, g: Tree, vs: Tree, env: Env) -> bool decreases vs {
+    match vs {
+        Tree::Leaf(_) => op_sem(op, sem(f, env), sem(g, env)),
+        Tree::Inner(l, a, _) => op_sem(q, qsem2(q, op, f, g, *a, upd(env, l as int, true)), qsem2(q, op, f, g, *a, upd(env, l as int, false))),
+    }
+}
+/// variables above level `until` removed from the set
+pub open spec fn popped(vs: Tree, until: int) -> Tree decreases vs {
+    match vs {
+        Tree::Leaf(_) => vs,
+        Tree::Inner(l, a, _) => if (l as int) >= until { vs } else { popped(*a, until) },
+    }
+}
+pub open spec fn quant_post(q: u8, f: Tree, vs: Tree, n: int, r: Tree) -> bool {
+    ok(r, n) && top(r) >= top(f) && forall|env: Env| #[trigger] sem(r, env) == qsem(q, f, vs, env)
+}
+pub open spec fn apply_quant_post(q: u8, op: u8, f: Tree, g: Tree, vs: Tree, n: int, r: Tree) -> bool {
+    ok(r, n) && res_top_ok2(r, f, g) && forall|env: Env| #[trigger] sem(r, env) == qsem2(q, op, f, g, vs, env)
+}
+pub open spec fn agree_from(e1: Env, e2: Env, m: int) -> bool { forall|i: int| i >= m ==> #[trigger] e1(i) == e2(i) }
+
+pub proof fn lemma_sem_agree(t: Tree, e1: Env, e2: Env)
+    requires wf(t), agree_from(e1, e2, top(t)),
+    ensures sem(t, e1) == sem(t, e2),
+    decreases t,
+{
+    match t {
+        Tree::Leaf(_) => {}
+        Tree::Inner(l, a, b) => { lemma_sem_agree(*a, e1, e2); lemma_sem_agree(*b, e1, e2); }
+    }
+}
+pub proof fn lemma_qsem_agree(q: u8, t: Tree, vs: Tree, e1: Env, e2: Env)
+    requires wf(t), agree_from(e1, e2, top(t)),
+    ensures qsem(q, t, vs, e1) == qsem(q, t, vs, e2),
+    decreases vs,
+{
+    match vs {
+        Tree::Leaf(_) => { lemma_sem_agree(t, e1, e2); }
+        Tree::Inner(l, a, _) => {
+            lemma_qsem_agree(q, t, *a, upd(e1, l as int, true), upd(e2, l as int, true));
+            lemma_qsem_agree(q, t, *a, upd(e1, l as int, false), upd(e2, l as int, false));
+        }
+    }
+}
+/// a variable above the top of `t` is irrelevant
+pub broadcast proof fn lemma_qsem_upd(q: u8, t: Tree, vs: Tree, env: Env, l: int, b: bool)
+    requires wf(t), l < top(t),
+    ensures #[trigger] qsem(q, t, vs, upd(env, l, b)) == qsem(q, t, vs, env),
+{
+    lemma_qsem_agree(q, t, vs, upd(env, l, b), env);
+}
+pub broadcast proof fn lemma_sem_upd(t: Tree, env: Env, l: int, b: bool)
+    requires wf(t), l < top(t),
+    ensures #[trigger] sem(t, upd(env, l, b)) == sem(t, env),
+{
+    lemma_sem_agree(t, upd(env, l, b), env);
+}
+/// Shannon expansion commutes with quantification over lower variables
+pub broadcast proof fn lemma_qsem_mk(q: u8, l: u32, a: Tree, b: Tree, vs: Tree, env: Env)
+    requires wf(vs), (l as int) < top(vs),
+    ensures #[trigger] qsem(q, mk(l, a, b), vs, env) == (if env(l as int) { qsem(q, a, vs, env) } else { qsem(q, b, vs, env) }),
+    decreases vs,
+{
+    match vs {
+        Tree::Leaf(_) => {}
+        Tree::Inner(k, va, _) => {
+            lemma_qsem_mk(q, l, a, b, *va, upd(env, k as int, true));
+            lemma_qsem_mk(q, l, a, b, *va, upd(env, k as int, false));
+        }
+    }
+}
+/// one unfolding step of qsem in the variable-set argument, at full fuel
+pub broadcast proof fn lemma_qsem_vs_mk(q: u8, t: Tree, l: u32, a: Tree, b: Tree, env: Env)
+    ensures #[trigger] qsem(q, t, mk(l, a, b), env) == op_sem(q, qsem(q, t, a, upd(env, l as int, true)), qsem(q, t, a, upd(env, l as int, false))),
+{}
+pub broadcast proof fn lemma_qsem_vs_leaf(q: u8, t: Tree, b: bool, env: Env)
+    ensures #[trigger] qsem(q, t, Tree::Leaf(b), env) == sem(t, env),
+{}
+pub broadcast proof fn lemma_qsem_const(q: u8, c: bool, vs: Tree, env: Env)
+    requires q == BDDOp::And as u8 || q == BDDOp::Or as u8,
+    ensures #[trigger] qsem(q, Tree::Leaf(c), vs, env) == c,
+    decreases vs,
+{
+    match vs {
+        Tree::Leaf(_) => {}
+        Tree::Inner(k, va, _) => {
+            lemma_qsem_const(q, c, *va, upd(env, k as int, true));
+            lemma_qsem_const(q, c, *va, upd(env, k as int, false));
+        }
+    }
+}
+pub broadcast proof fn lemma_popped(q: u8, t: Tree, vs: Tree, until: int, env: Env)
+    requires q == BDDOp::And as u8 || q == BDDOp::Or as u8, wf(t), until <= top(t),
+    ensures qsem(q, t, #[trigger] popped(vs, until), env) == #[trigger] qsem(q, t, vs, env),
+    decreases vs,
+{
+    match vs {
+        Tree::Leaf(_) => {}
+        Tree::Inner(l, a, _) => {
+            if (l as int) < until {
+                lemma_popped(q, t, *a, until, env);
+                lemma_qsem_agree(q, t, *a, upd(env, l as int, true), env);
+                lemma_qsem_agree(q, t, *a, upd(env, l as int, false), env);
+            }
+        }
+    }
+}
+pub broadcast proof fn lemma_popped_ok(vs: Tree, until: int, n: int)
+    requires #[trigger] below(vs, n), wf(vs),
+    ensures below(#[trigger] popped(vs, until), n), wf(popped(vs, until)), top(popped(vs, until)) >= until || popped(vs, until) is Leaf, top(popped(vs, until)) >= top(vs),
+    decreases vs,
+{
+    match vs {
+        Tree::Leaf(_) => {}
+        Tree::Inner(l, a, _) => { if (l as int) < until { lemma_popped_ok(*a, until, n); } }
+    }
+}
+pub broadcast proof fn lemma_popped_wf(vs: Tree, until: int)
+    requires wf(vs),
+    ensures wf(#[trigger] popped(vs, until)), top(popped(vs, until)) >= until || popped(vs, until) is Leaf, top(popped(vs, until)) >= top(vs),
+    decreases vs,
+{
+    match vs {
+        Tree::Leaf(_) => {}
+        Tree::Inner(l, a, _) => { if (l as int) < until { lemma_popped_wf(*a, until); } }
+    }
+}
+pub broadcast proof fn lemma_popped_mk(l: u32, a: Tree, b: Tree, until: int)
+    ensures #[trigger] popped(mk(l, a, b), until) == (if (l as int) >= until { mk(l, a, b) } else { popped(a, until) }),
+{}
+pub broadcast group quant_lemmas { lemma_qsem_upd, lemma_sem_upd, lemma_qsem_mk, lemma_qsem_vs_mk, lemma_qsem_vs_leaf, lemma_qsem_const, lemma_popped, lemma_popped_ok, lemma_popped_wf, lemma_popped_mk }
+
+
+
+// ---------- restrict (C04): cofactor w.r.t. a partial assignment given as a cube ----------
+pub open spec fn next_cube(a: Tree, b: Tree) -> Tree { if a == Tree::Leaf(false) { b } else { a } }
+/// value of level `i` under `env` overridden by the literals of cube `c`
+/// (node with then-child != false: positive literal, continue in the then-child;
+///  then-child == false: negative literal, continue in the else-child)
+pub open spec fn cube_val(c: Tree, env: Env, i: int) -> bool decreases c {
+    match c {
+        Tree::Leaf(_) => env(i),
+        Tree::Inner(l, a, b) => if i == l as int { *a != Tree::Leaf(false) } else { cube_val(next_cube(*a, *b), env, i) },
+    }
+}
+pub open spec fn cenv(c: Tree, env: Env) -> Env { |i: int| cube_val(c, env, i) }
+pub open spec fn restrict_post(f: Tree, vars: Tree, n: int, r: Tree) -> bool {
+    ok(r, n) && top(r) >= top(f) && forall|env: Env| #[trigger] sem(r, env) == sem(f, cenv(vars, env))
+}
+pub broadcast proof fn lemma_cube_val_mk(l: u32, a: Tree, b: Tree, env: Env, i: int)
+    ensures #[trigger] cube_val(mk(l, a, b), env, i) == (if i == l as int { a != Tree::Leaf(false) } else { cube_val(next_cube(a, b), env, i) }),
+{}
+pub broadcast proof fn lemma_cube_val_above(c: Tree, env: Env, i: int)
+    requires wf(c), i < top(c),
+    ensures #[trigger] cube_val(c, env, i) == env(i),
+    decreases c,
+{
+    match c {
+        Tree::Leaf(_) => {}
+        Tree::Inner(l, a, b) => { lemma_cube_val_above(next_cube(*a, *b), env, i); }
+    }
+}
+pub broadcast proof fn lemma_cenv_leaf(t: Tree, b: bool, env: Env)
+    requires wf(t),
+    ensures #[trigger] sem(t, cenv(Tree::Leaf(b), env)) == sem(t, env),
+{
+    lemma_sem_agree(t, cenv(Tree::Leaf(b), env), env);
+}
+pub broadcast proof fn lemma_cenv_skip(t: Tree, l: u32, a: Tree, b: Tree, env: Env)
+    requires wf(t), (l as int) < top(t),
+    ensures #[trigger] sem(t, cenv(mk(l, a, b), env)) == sem(t, cenv(next_cube(a, b), env)),
+{
+    lemma_sem_agree(t, cenv(mk(l, a, b), env), cenv(next_cube(a, b), env));
+}
+pub broadcast proof fn lemma_cenv_same(l: u32, ft: Tree, fe: Tree, l2: u32, a: Tree, b: Tree, env: Env)
+    requires wf(mk(l, ft, fe)), l == l2,
+    ensures #[trigger] sem(mk(l, ft, fe), cenv(mk(l2, a, b), env)) == sem(if a != Tree::Leaf(false) { ft } else { fe }, cenv(next_cube(a, b), env)),
+{
+    lemma_sem_agree(ft, cenv(mk(l, a, b), env), cenv(next_cube(a, b), env));
+    lemma_sem_agree(fe, cenv(mk(l, a, b), env), cenv(next_cube(a, b), env));
+}
+pub broadcast group restrict_lemmas { lemma_cube_val_mk, lemma_cube_val_above, lemma_cenv_leaf, lemma_cenv_skip, lemma_cenv_same }
+
 // ---------- environment stubs (ASSUMED manager contract) ----------
 pub type LevelNo = u32;
 pub type VarNo = u32;
@@ -236,10 +430,21 @@ impl CacheOp for BDDOp {
         if o == BDDOp::Not as u8 { operands.len() == 1 && not_post(operands[0], n, res) }
         else if is_bin(o) { operands.len() == 2 && bin_post(o, operands[0], operands[1], n, res) }
         else if o == BDDOp::Ite as u8 { operands.len() == 3 && ite_post(operands[0], operands[1], operands[2], n, res) }
+        else if o == BDDOp::Restrict as u8 { operands.len() == 2 && restrict_post(operands[0], operands[1], n, res) }
+        else if o == BDDOp::Forall as u8 { operands.len() == 2 && quant_post(BDDOp::And as u8, operands[0], operands[1], n, res) }
+        else if o == BDDOp::Exists as u8 { operands.len() == 2 && quant_post(BDDOp::Or as u8, operands[0], operands[1], n, res) }
+        else if o == BDDOp::Unique as u8 { operands.len() == 2 && quant_post(BDDOp::Xor as u8, operands[0], operands[1], n, res) }
         else { false }
     }
 }
 
+// ---------- units: crates/oxidd-rules-bdd/src/lib.rs ----------
+//@fn file=crates/oxidd-rules-bdd/src/lib.rs path=fn:set_pop ret=r props=C04,C13
+//@spec
+    requires wf(set.view()),
+    ensures r.view() == popped(set.view(), until as int),
+    decreases set.view(),
+//@end
 // ---------- units: crates/oxidd-rules-bdd/src/simple/mod.rs ----------
 mod simple {
 use super::*;
@@ -270,7 +475,7 @@ broadcast use leaf_lemmas;
 
 mod apply_rec {
 use super::*;
-broadcast use leaf_lemmas;
+broadcast use {leaf_lemmas, quant_lemmas, restrict_lemmas};
 //@fn file=crates/oxidd-rules-bdd/src/simple/apply_rec.rs path=fn:apply_not nodecr expect=R5:1 props=C02,C06
 //@spec
     requires edge_ok::<M::Edge>(), ok(f.view(), manager.num_levels_spec()),
@@ -285,6 +490,33 @@ broadcast use leaf_lemmas;
 //@spec
     requires edge_ok::<M::Edge>(), ok(f.view(), manager.num_levels_spec()), ok(g.view(), manager.num_levels_spec()), ok(h.view(), manager.num_levels_spec()),
     ensures res is Ok ==> ite_post(f.view(), g.view(), h.view(), manager.num_levels_spec(), res->Ok_0.view()),
+//@end
+//@item file=crates/oxidd-rules-bdd/src/simple/apply_rec.rs path=fn:restrict/enum:InnerResult rename=restrict__InnerResult
+//@end
+//@fn file=crates/oxidd-rules-bdd/src/simple/apply_rec.rs path=fn:restrict/fn:inner rename=restrict__inner subst=InnerResult>restrict__InnerResult props=C04
+//@spec
+    requires edge_ok::<M::Edge>(), ok(f.view(), manager.num_levels_spec()), ok(vars.view(), manager.num_levels_spec()),
+        f.view() == mk(fnode.level_spec(), fnode.then_spec(), fnode.else_spec()), flevel == fnode.level_spec(),
+        vars.view() == mk(vnode.level_spec(), vnode.then_spec(), vnode.else_spec()),
+    ensures match res {
+        restrict__InnerResult::Done(r) => restrict_post(f.view(), vars.view(), manager.num_levels_spec(), r.view()),
+        restrict__InnerResult::Rec { vars: v2, f: f2, fnode: fn2 } =>
+            f2.view() == mk(fn2.level_spec(), fn2.then_spec(), fn2.else_spec())
+            && ok(f2.view(), manager.num_levels_spec()) && ok(v2.view(), manager.num_levels_spec())
+            && is_inner(v2.view()) && top(v2.view()) > top(f2.view()) && top(f2.view()) >= top(f.view())
+            && forall|env: Env| #[trigger] sem(f2.view(), cenv(v2.view(), env)) == sem(f.view(), cenv(vars.view(), env)),
+    },
+    decreases f.view(), vars.view(),
+//@end
+//@fn file=crates/oxidd-rules-bdd/src/simple/apply_rec.rs path=fn:restrict hoist=inner>restrict__inner,InnerResult>restrict__InnerResult nodecr expect=R5:1 props=C04,C06
+//@spec
+    requires edge_ok::<M::Edge>(), ok(f.view(), manager.num_levels_spec()), ok(vars.view(), manager.num_levels_spec()),
+    ensures res is Ok ==> restrict_post(f.view(), vars.view(), manager.num_levels_spec(), res->Ok_0.view()),
+//@end
+//@fn file=crates/oxidd-rules-bdd/src/simple/apply_rec.rs path=fn:quant nodecr expect=R5:1 props=C04,C06
+//@spec
+    requires is_q(Q), edge_ok::<M::Edge>(), ok(f.view(), manager.num_levels_spec()), ok(vars.view(), manager.num_levels_spec()),
+    ensures res is Ok ==> quant_post(Q, f.view(), vars.view(), manager.num_levels_spec(), res->Ok_0.view()),
 //@end
 //@fn file=crates/oxidd-rules-bdd/src/simple/apply_rec.rs path=impl:BooleanFunction~for~BDDFunction<F>/fn:and_edge props=C02
 //@header
